@@ -66,6 +66,7 @@ func main() {
 	nested := fl.Bool("nested-inline", false, "allow nested inline objects")
 	risky := fl.Bool("risky-names", false, "use one attribute name that generated code may collide with")
 	viewsDesign := fl.Bool("views-design", false, "a design of result types with views (C08)")
+	grpcDesign := fl.Bool("grpc-design", false, "a design with gRPC endpoints (C10)")
 	meta := fl.Bool("meta", false, "decorate the design with openapi:* / struct:* metadata (post-pass, C09)")
 	metaBoth := fl.Bool("meta-both-summaries", false, "with -meta: openapi:summary and swagger:summary on the same expressions")
 	designFile := fl.String("design", "", "design JSON")
@@ -76,6 +77,12 @@ func main() {
 	fl.Parse(os.Args[2:])
 	switch os.Args[1] {
 	case "make":
+		if *grpcDesign {
+			d := design.GenerateGRPC(lp.NewRng(*seed*1000003+uint64(*index)+11), *index)
+			b, _ := json.Marshal(d)
+			fmt.Println(string(b))
+			return
+		}
 		if *viewsDesign {
 			d := design.GenerateViews(lp.NewRng(*seed*1000003+uint64(*index)+5), *index)
 			b, _ := json.Marshal(d)
@@ -104,6 +111,18 @@ func main() {
 			}
 		}
 		b, _ := json.Marshal(rep)
+		fmt.Println(string(b))
+	case "proto":
+		// the .proto text goa emits for every gRPC service of the design, rendered in-process (no protoc)
+		raw, err := os.ReadFile(*designFile)
+		if err != nil {
+			fatal(err)
+		}
+		var d design.Design
+		if err := json.Unmarshal(raw, &d); err != nil {
+			fatal(err)
+		}
+		b, _ := json.Marshal(protoAll(&d))
 		fmt.Println(string(b))
 	case "project":
 		// the real expr.Project of every (result type, view) of the design, as trees
